@@ -5,6 +5,7 @@ import Driver.Ops.C04
 import Driver.Ops.C05
 import Driver.Ops.C06
 import Driver.Ops.C06Calc
+import Driver.Ops.C06Splits
 import Driver.Ops.C07
 import Driver.Ops.C08
 import Driver.Ops.C09
@@ -28,6 +29,7 @@ def allOps : OpTable :=
   ++ opsC05
   ++ opsC06
   ++ opsC06Calc
+  ++ opsC06Splits
   ++ opsC07
   ++ opsC08
   ++ opsC09
